@@ -965,3 +965,75 @@ sc.stubs = {"pdfminer.pdftypes:resolve1": _r1}
 sc.returns(T.Opaque("list"))
 sc.ens("absent-none-single-one-array-its-elements-in-order", lambda c, result: (
     isinstance(result, list) and len(result) == len(c._want) and all(getattr(a, "f", {}).get("_tag") == b.f["_tag"] for a, b in zip(result, c._want))))
+
+
+# -- the layout analyzer's item stack (C08, C16, C18, C05): a figure is opened on top of the current container with Matrix x CTM and, when closed, is added to
+#    exactly the container that was current when it was opened; a page is analysed once (when layout parameters are given), numbered, and handed on --------------
+conv = real_module("pdfminer.converter")
+_ltf = stub("pdfminer.layout:LTFigure.__init__", ["self", "name", "bbox", "matrix"])
+_ltf.effect = lambda I, bound: bound["self"].f.update(name=bound["name"], _bbox_arg=bound["bbox"], matrix=bound["matrix"], _objs=[])
+
+
+class _Container(T.Sort):
+    def fresh(self, ctx, name):
+        o = SObj(lay.LTFigure, {"_objs": [], "_tag": name}, name)
+        o.f["add"] = SymFn(lambda I, x, o=o: o.f["_objs"].append(x), "add")
+        return o
+    def sample(self, rng):
+        return None
+    def from_model(self, ev, v):
+        return v.f["_tag"]
+
+
+c = contract("pdfminer.converter:PDFLayoutAnalyzer.begin_figure", props=["C08", "C16", "C18", "C05"])
+c.param("self", T.Obj("pdfminer.converter:PDFLayoutAnalyzer", cur_item=_Container(), _stack=T.Tup(_Container(), as_list=True), ctm=T.RealTup(6)))
+c.param("name", T.Const("Fm1")).param("bbox", T.RealTup(4)).param("matrix", T.RealTup(6))
+c.skip_cross = True
+c.inline = True
+c.stubs = {"pdfminer.layout:LTFigure.__init__": _ltf}
+c.mod("self.cur_item").mod("self._stack")
+
+
+def _bf_spec(self, old, name, bbox, matrix):
+    (a1, b1, c1, d1, e1, f1), (a0, b0, c0, d0, e0, f0) = matrix, old.self.ctm
+    want = (a0 * a1 + c0 * b1, b0 * a1 + d0 * b1, a0 * c1 + c0 * d1, b0 * c1 + d0 * d1, a0 * e1 + c0 * f1 + e0, b0 * e1 + d0 * f1 + f0)
+    if not (len(self._stack) == 2 and self._stack[0]._tag == old.self._stack[0]._tag and self._stack[1]._tag == old.self.cur_item._tag and self.cur_item.f["name"] == name):
+        return False
+    return And(*[eq(self.cur_item.matrix[k], want[k]) for k in range(6)], *[eq(self.cur_item._bbox_arg[k], bbox[k]) for k in range(4)])
+
+
+c.ens("current-container-pushed-new-figure-with-Matrix-x-CTM-becomes-current", _bf_spec)
+
+c = contract("pdfminer.converter:PDFLayoutAnalyzer.end_figure", props=["C08", "C16", "C18", "C05"])
+c.param("self", T.Obj("pdfminer.converter:PDFLayoutAnalyzer", cur_item=_Container(), _stack=T.Tup(_Container(), _Container(), as_list=True))).param("_", T.Const("Fm1"))
+c.skip_cross = True
+c.inline = True
+c.mod("self.cur_item").mod("self._stack").mod("self._stack[*]")
+c.ens("figure-added-once-to-the-container-it-was-opened-in-which-becomes-current-again", lambda self, old: (
+    len(self._stack) == 1 and self._stack[0]._tag == old.self._stack[0]._tag and self.cur_item._tag == old.self._stack[1]._tag
+    and len(self.cur_item._objs) == 1 and self.cur_item._objs[0]._tag == old.self.cur_item._tag and len(self._stack[0]._objs) == 0))
+
+
+class _PageItem(T.Sort):
+    def fresh(self, ctx, name):
+        o = SObj(lay.LTPage, {"_analyzed": [], "_tag": "page-item"}, name)
+        o.f["analyze"] = SymFn(lambda I, lap, o=o: o.f["_analyzed"].append(lap), "analyze")
+        return o
+    def sample(self, rng):
+        return None
+    def from_model(self, ev, v):
+        return "page"
+
+
+_rl = stub("pdfminer.converter:PDFLayoutAnalyzer.receive_layout", ["self", "ltpage"])
+for _lap in ("with-laparams", "without-laparams"):
+    c = contract("pdfminer.converter:PDFLayoutAnalyzer.end_page#%s" % _lap, props=["C08", "C11", "C04"])
+    c.param("self", T.Obj("pdfminer.converter:PDFLayoutAnalyzer", cur_item=_PageItem(), _stack=T.Const([]), pageno=T.Int(1, 10 ** 6),
+                          laparams=T.Const("the-laparams") if _lap == "with-laparams" else T.Const(None))).param("page", T.Const("pdfpage"))
+    c.skip_cross = True
+    c.stubs = {"pdfminer.converter:%s.receive_layout" % k: _rl for k in ("PDFLayoutAnalyzer", "PDFPageAggregator", "TextConverter", "XMLConverter", "HTMLConverter", "HOCRConverter")}
+    c.mod("self.pageno").mod("self.cur_item._analyzed")
+    c.ens("analysed-once-iff-layout-parameters-then-numbered-then-handed-on", (lambda lap: lambda self, old, trace: (
+        len(trace) == 1 and trace[0][1]["ltpage"]._tag == "page-item"
+        and self.cur_item._analyzed == (["the-laparams"] if lap == "with-laparams" else []))
+        and eq(self.pageno, old.self.pageno + 1))(_lap))
